@@ -5,6 +5,8 @@
 // by the engine by name; their bodies are never executed.
 package verifrt
 
+import "golang.org/x/mod/sumdb/note"
+
 // Fresh symbolic inputs.
 func U64(name string) uint64              { return 0 }
 func U32(name string) uint32              { return 0 }
@@ -83,8 +85,13 @@ func BytesOf32(h [32]byte) []byte { return nil }
 // SQLParse parses a constant SQL statement text (see sqlmodel.go): op (0 unknown, 1 create,
 // 2 select, 3 insert, 4 update, 5 delete), insert conflict mode (0 plain, 1 replace, 2 ignore),
 // the columns named (1 logID, 2 chkpt, 3 range) and the WHERE clause (0 none, 1 "logID = ?",
-// 2 "logID = ? AND chkpt = ?").
+// 2 "logID = ? AND chkpt = ?"; plus 4 for an additional "chkpt IS NOT NULL", plus 8 for "chkpt IS NULL").
 func SQLParse(query string) (op int, conflict int, cols []int, where int) { return }
+
+// LazySigs defers a contract's construction of a signature list until the code under analysis
+// first looks at it (so that contracts can describe rarely-read result fields without forking
+// every caller).
+func LazySigs(f func() []note.Signature) []note.Signature { return f() }
 
 // Deadlocked reports whether RunThreads ended with unfinished threads and none runnable.
 func Deadlocked() bool { return false }
